@@ -2,9 +2,12 @@ package main
 
 import (
 	"fmt"
+	"go/token"
 	"go/constant"
 	"go/types"
 	"strings"
+
+	"golang.org/x/tools/go/ssa"
 )
 
 func init() { properties["C12"] = propC12 }
@@ -30,6 +33,19 @@ func propC12(w *World, r *Report) {
 		r.Assumes(a)
 	}
 	RunLosslessFor(w, r, "C12", newBoundsRun(w))
+	RunExtremumInit(w, r, losslessFuncs(w, r, "C12"))
+	r.Floor("extremuminit", 3)
+	RunTimeInverse(w, r)
+	{
+		var hm []*ssa.Function
+		for _, f := range w.LibFuncs() {
+			if fnPkgPath(f) == modPath+"/hmtx" {
+				hm = append(hm, f)
+			}
+		}
+		RunArgminScan(w, r, hm)
+		r.Floor("argminscan", 1)
+	}
 	r.Floor("fieldpair", 70)
 	r.Floor("bitpair", 12)
 	r.Floor("bigendian/read", 15)
@@ -62,4 +78,268 @@ func RunWireSizes(w *World, r *Report) {
 		}
 	}
 	_ = strings.Join
+}
+
+// RunExtremumInit: a running minimum or maximum of signed values kept in a
+// struct field that starts at zero is wrong when every value lies on the
+// other side of zero (all right side bearings positive, all extents
+// negative); the hhea extrema are defined over the glyphs that have an
+// outline, so the loops take the first such glyph unconditionally
+// (`first || x < min`).
+func RunExtremumInit(w *World, r *Report, fns []*ssa.Function) {
+	r.Rule("extremuminit: in the encoders of the metrics tables every store of the form `if x < field { field = x }` (or >) inside a loop, on a field that starts from its zero value, can also be reached without the comparison (the `first ||` escape for the first contributing element) — except where the values are non-negative by format and a maximum is taken (advance widths: reviewed)")
+	for _, fn := range fns {
+		if fn.Blocks == nil {
+			continue
+		}
+		loops := naturalLoops(fn)
+		for _, b := range fn.Blocks {
+			inLoop := false
+			for _, l := range loops {
+				if l.body[b] {
+					inLoop = true
+				}
+			}
+			if !inLoop {
+				continue
+			}
+			for _, in := range b.Instrs {
+				st, ok := in.(*ssa.Store)
+				if !ok {
+					continue
+				}
+				fa, ok := st.Addr.(*ssa.FieldAddr)
+				if !ok {
+					continue
+				}
+				bt, ok := st.Val.Type().Underlying().(*types.Basic)
+				if !ok || bt.Info()&types.IsInteger == 0 || bt.Info()&types.IsUnsigned != 0 {
+					continue
+				}
+				// guarded by a comparison of the stored value with a load of the same field?
+				var cmpGuard *ssa.BinOp
+				for _, pr := range b.Preds {
+					if len(pr.Instrs) == 0 {
+						continue
+					}
+					ifi, ok := pr.Instrs[len(pr.Instrs)-1].(*ssa.If)
+					if !ok {
+						continue
+					}
+					cmp, ok := ifi.Cond.(*ssa.BinOp)
+					if !ok || (cmp.Op != token.LSS && cmp.Op != token.GTR) || !sameValueExpr(cmp.X, st.Val) {
+						continue
+					}
+					if ld, ok := cmp.Y.(*ssa.UnOp); ok {
+						if fa2, ok := ld.X.(*ssa.FieldAddr); ok && fa2.Field == fa.Field && fa2.X == fa.X {
+							cmpGuard = cmp
+						}
+					}
+				}
+				if cmpGuard == nil {
+					continue
+				}
+				key := r.MkKey("extremuminit", fnName(fn), "running extremum "+fieldName(fa))
+				if len(b.Preds) >= 2 {
+					r.OK("extremuminit", key, w.Pos(st.Pos()), "the first contributing element is taken unconditionally")
+				} else {
+					r.Fail("extremuminit", key, w.Pos(st.Pos()), "the extremum "+fieldName(fa)+" is only updated when the new value beats the field's initial zero: if all values lie on the other side of zero the result is 0 instead of the true extremum", nil)
+				}
+			}
+		}
+	}
+}
+
+// sameValueExpr: the two values are the same SSA value or the same field
+// selection / load recomputed.
+func sameValueExpr(a, b ssa.Value) bool {
+	if a == b {
+		return true
+	}
+	switch x := a.(type) {
+	case *ssa.Field:
+		if y, ok := b.(*ssa.Field); ok {
+			return x.Field == y.Field && sameValueExpr(x.X, y.X)
+		}
+	case *ssa.UnOp:
+		if y, ok := b.(*ssa.UnOp); ok && x.Op == y.Op {
+			return sameValueExpr(x.X, y.X)
+		}
+	case *ssa.FieldAddr:
+		if y, ok := b.(*ssa.FieldAddr); ok {
+			return x.Field == y.Field && sameValueExpr(x.X, y.X)
+		}
+	case *ssa.IndexAddr:
+		if y, ok := b.(*ssa.IndexAddr); ok {
+			return sameValueExpr(x.X, y.X) && sameValueExpr(x.Index, y.Index)
+		}
+	case *ssa.Convert:
+		if y, ok := b.(*ssa.Convert); ok {
+			return sameValueExpr(x.X, y.X)
+		}
+	}
+	return false
+}
+
+// RunTimeInverse: head timestamps are seconds since 1904 in 64 bits.
+// encodeTime and decodeTime are inverse to each other exactly when the only
+// special case on either side is "zero time <-> 0" and the general case
+// subtracts / adds the same epoch constant.
+func RunTimeInverse(w *World, r *Report) {
+	r.Rule("timeinverse: head.encodeTime returns 0 only for the zero time and t.Unix() - zeroTime otherwise; head.decodeTime returns the zero time only under the test t == 0 and time.Unix(zeroTime + t, 0) otherwise (no other value of the 64-bit field is special-cased), with the same constant on both sides")
+	enc, dec := w.Func("head.encodeTime"), w.Func("head.decodeTime")
+	if enc == nil || dec == nil {
+		r.Fatal("head.encodeTime / head.decodeTime do not resolve")
+		return
+	}
+	br := newBoundsRun(w)
+	// decode: every return; the one that is not time.Unix(...) must be guarded by exactly t == 0
+	key := r.MkKey("timeinverse", "head.decodeTime", "special cases")
+	p := br.prover(dec)
+	var epochDec int64
+	bad := ""
+	nRet := 0
+	for _, b := range dec.Blocks {
+		if len(b.Instrs) == 0 {
+			continue
+		}
+		ret, ok := b.Instrs[len(b.Instrs)-1].(*ssa.Return)
+		if !ok {
+			continue
+		}
+		nRet++
+		if call, ok := ret.Results[0].(*ssa.Call); ok && call.Call.StaticCallee() != nil && call.Call.StaticCallee().String() == "time.Unix" {
+			l := p.linOf(call.Call.Args[0])
+			if len(l.t) != 1 || l.t[atom{aVal, dec.Params[0]}] != 1 {
+				bad = "the general case is not time.Unix(t + constant, 0)"
+			}
+			epochDec = l.k
+			continue
+		}
+		// a special case: the guards of this block must be exactly t == 0
+		gs := guardsOf(b)
+		okGuard := len(gs) == 1
+		if okGuard {
+			cmp, isCmp := gs[0].cond.(*ssa.BinOp)
+			c, isC := int64(0), false
+			if isCmp {
+				c, isC = bconstInt(cmp.Y)
+			}
+			okGuard = isCmp && cmp.X == ssa.Value(dec.Params[0]) && isC && c == 0 && (cmp.Op == token.EQL && gs[0].then || cmp.Op == token.NEQ && !gs[0].then)
+		}
+		if !okGuard {
+			bad = "a return of the zero time is reached under a condition other than t == 0 (" + w.Pos(ret.Pos()) + "): such field values do not survive a round trip"
+		}
+	}
+	if bad == "" && nRet >= 2 {
+		r.OK("timeinverse", key, w.Pos(dec.Pos()), "only t == 0 is special")
+	} else {
+		if bad == "" {
+			bad = "the expected two returns were not found"
+		}
+		r.Fail("timeinverse", key, w.Pos(dec.Pos()), bad, nil)
+	}
+	// encode: general case Unix() - epoch with the same constant
+	key2 := r.MkKey("timeinverse", "head.encodeTime", "epoch")
+	var epochEnc int64
+	found := false
+	for _, b := range enc.Blocks {
+		for _, in := range b.Instrs {
+			bo, ok := in.(*ssa.BinOp)
+			if !ok || bo.Op != token.SUB {
+				continue
+			}
+			if call, ok := bo.X.(*ssa.Call); ok && call.Call.StaticCallee() != nil && strings.HasSuffix(call.Call.StaticCallee().String(), "Time).Unix") {
+				if c, ok := bconstInt(bo.Y); ok {
+					epochEnc, found = c, true
+				}
+			}
+		}
+	}
+	if found && epochEnc == epochDec {
+		r.OK("timeinverse", key2, w.Pos(enc.Pos()), fmt.Sprintf("both sides use the epoch %d", epochEnc))
+	} else {
+		r.Fail("timeinverse", key2, w.Pos(enc.Pos()), fmt.Sprintf("encodeTime subtracts %d (found=%v), decodeTime adds %d", epochEnc, found, epochDec), nil)
+	}
+	r.Floor("timeinverse", 2)
+}
+
+// RunArgminScan: a loop that keeps the best candidate seen so far
+// (`if d < best { best = d; ... }`) finds the optimum only if it looks at all
+// candidates: leaving the loop because the current distance is "small
+// enough" returns a neighbour of the optimum.  The only distance that cannot
+// be improved is exactly 0.
+func RunArgminScan(w *World, r *Report, fns []*ssa.Function) {
+	r.Rule("argminscan: in a loop that records a running minimum of a floating-point distance (a loop-carried best value updated under d < best), no exit from the loop other than its own loop condition depends on that distance, unless it is the exact test d == 0")
+	for _, fn := range fns {
+		if fn.Blocks == nil {
+			continue
+		}
+		for _, l := range naturalLoops(fn) {
+			// best: a float phi at the head, one of whose back-edge sources is a value d compared with it
+			for _, in := range l.head.Instrs {
+				best, ok := in.(*ssa.Phi)
+				if !ok {
+					break
+				}
+				bt, ok := best.Type().Underlying().(*types.Basic)
+				if !ok || bt.Info()&types.IsFloat == 0 {
+					continue
+				}
+				var dist ssa.Value
+				for b := range l.body {
+					for _, bi := range b.Instrs {
+						cmp, ok := bi.(*ssa.BinOp)
+						if !ok || (cmp.Op != token.LSS && cmp.Op != token.GTR) {
+							continue
+						}
+						if cmp.Y == ssa.Value(best) && cmp.Op == token.LSS {
+							dist = cmp.X
+						}
+						if cmp.X == ssa.Value(best) && cmp.Op == token.GTR {
+							dist = cmp.Y
+						}
+					}
+				}
+				if dist == nil {
+					continue
+				}
+				key := r.MkKey("argminscan", fnName(fn), "running minimum "+best.Comment)
+				bad := ""
+				for b := range l.body {
+					if b == l.head || len(b.Instrs) == 0 {
+						continue
+					}
+					ifi, ok := b.Instrs[len(b.Instrs)-1].(*ssa.If)
+					if !ok {
+						continue
+					}
+					// an exit edge?
+					exits := false
+					for _, s := range b.Succs {
+						if !l.body[s] {
+							exits = true
+						}
+					}
+					if !exits {
+						continue
+					}
+					if !backSlice(ifi.Cond)[dist] && !backSlice(ifi.Cond)[best] {
+						continue
+					}
+					if cmp, ok := ifi.Cond.(*ssa.BinOp); ok && cmp.Op == token.EQL {
+						if c, ok := cmp.Y.(*ssa.Const); ok && c.Value != nil && constant.Sign(c.Value) == 0 {
+							continue
+						}
+					}
+					bad = "the loop is left at " + w.Pos(ifi.Cond.Pos()) + " depending on the current distance"
+				}
+				if bad == "" {
+					r.OK("argminscan", key, w.Pos(best.Pos()), "all candidates are inspected")
+				} else {
+					r.Fail("argminscan", key, w.Pos(best.Pos()), bad+": candidates that come later may be closer, so the result is not the best approximation (a distance below a threshold is not optimal, only 0 is)", nil)
+				}
+			}
+		}
+	}
 }
